@@ -24,7 +24,7 @@ import re
 from fractions import Fraction
 
 from mc import env  # noqa
-from mc.kernel import Family, StateFamily, HarnessError, exc_disc
+from mc.kernel import Family, StateFamily, HarnessError
 from mc.docgen import Product
 from mc import strictparse as sp
 from mc.readerio import read_file_like_tt, LogTap, INTERNAL
@@ -35,8 +35,7 @@ import ttconv.model as model
 import ttconv.vtt.reader as vtt_reader
 import ttconv.vtt.writer as vtt_writer
 from ttconv.vtt.config import VTTWriterConfiguration
-from ttconv.style_properties import StyleProperties as SP, FontWeightType, FontStyleType, DisplayAlignType, TextAlignType, \
-  WritingModeType, LengthType
+from ttconv.style_properties import StyleProperties as SP, FontWeightType, FontStyleType, WritingModeType, LengthType
 
 ID = "C11"
 LEVEL = "model_checking"
@@ -1089,7 +1088,7 @@ def gates():
         sp.parse_vtt(fam.decode(i)["file"])
       except sp.GrammarError as e:
         raise HarnessError(f"generator {fam.name} index {i} is not grammatical: {e}\n{fam.decode(i)['file']}")
-  return {"hand_examples": 24, "spec_examples": 2, "repo_test_literals": 14, "checks": n}
+  return {"hand_examples": 24, "webvtt_spec_examples": 2, "repo_test_literals": 14, "generator_probes": 40, "checks": n}
 
 
 def _tok_of(cue, word):
